@@ -26,7 +26,7 @@ structure TWSt where
   /-- `Spec.histCheck M · g` of the selected model -/
   hist : TWState → Nat → Bool := fun _ _ => false
   s    : TWState := ⟨fun _ => [], [], []⟩
-  P    : Params := ⟨0, 1, 1, 1, 0, 0, false, false, false, 0⟩
+  P    : Params := Params.ofFields 0 1 1 1 0 0 0 0 0 0
   rng0 : Array Rng := #[]
 
 def twSelect {σ : Type} (M : SimModel σ) (st : TWSt) : TWSt :=
@@ -64,8 +64,8 @@ def twStep (st : TWSt) (toks : List String) : TWSt × String :=
   | ["twmodel", "pingpong"] => (twSelect pingPong st, "model pingpong")
   | ["twmodel", "fanin"] => (twSelect fanIn st, "model fanin")
   | "twmodel" :: "gen" :: seed :: lps :: types :: fan :: thr :: spread :: rng :: mem :: t0 :: skew =>
-    let P : Params := ⟨UInt64.ofNat (nat! seed), nat! lps, nat! types, nat! fan, nat! thr, nat! spread,
-      nat! rng != 0, nat! mem != 0, nat! t0 != 0, nat! (skew.headD "0")⟩
+    let P : Params := Params.ofFields (nat! seed) (nat! lps) (nat! types) (nat! fan) (nat! thr) (nat! spread)
+      (nat! rng) (nat! mem) (nat! t0) (nat! (skew.headD "0"))
     (twGen { st with P := P, rng0 := Array.replicate (nat! lps) ⟨0, 0, 0, 0⟩ }, "model gen")
   | ["twrng", lp, a, b, c, d] =>
     let rng : Rng := ⟨UInt64.ofNat (parseHexNat a), UInt64.ofNat (parseHexNat b),
